@@ -652,6 +652,10 @@ func PutGrainIfAbsent(ctx context.Context, cl Cluster, grain *internalpb.Grain) 
 		return fmt.Errorf("grain id value is empty")
 	}
 
+	if handled, err := verifClaimGrain(ctx, cl, grain); handled {
+		return err
+	}
+
 	if c, ok := cl.(*cluster); ok {
 		return c.putGrainIfAbsent(ctx, grain)
 	}
